@@ -363,3 +363,533 @@ Proof.
   intros Hr. destruct (accepts_prefix _ _ _ _ Hr) as [s1 [H1 _]].
   exists s1. split; [exact H1|]. destruct (lanes_bound _ _ _ _ H1) as [A [B _]]. split; assumption.
 Qed.
+
+(* ------------------------------------------------------------------ invariant 2: where every job is *)
+Definition jinv (ls : list label) (s : state) : Prop :=
+  st_added s = rev (adds ls) /\ NoDup (st_added s) /\
+  Permutation (st_added s) (all_jobs s) /\
+  Permutation (takes ls) (map snd (st_running s) ++ st_finished s).
+
+Lemma perm_move (X : list N) j a b : Permutation a (j :: b) -> Permutation (a ++ X) (b ++ j :: X).
+Proof.
+  intros P. eapply Permutation_trans; [apply Permutation_app_tail; exact P|].
+  cbn [app]. apply Permutation_middle.
+Qed.
+
+Lemma jinv_init n alg : jinv [] (init n alg).
+Proof.
+  unfold jinv, init, all_jobs. proj. cbn. repeat split; try constructor.
+Qed.
+
+Lemma jinv_step ls s a s' : jinv ls s -> step s a = Some s' -> jinv (ls ++ [a]) s'.
+Proof.
+  intros [Ja [Jnd [Jp Jt]]] Hstep. unfold jinv.
+  rewrite adds_app, takes_app.
+  destruct a as [j p o src|l j|l|l| | |l]; cbn [step] in Hstep; cbn [adds takes].
+  - (* Add *)
+    destruct (mem_n j (st_added s)) eqn:Hm; [discriminate|].
+    destruct (src_ok s src); [|discriminate].
+    apply mem_n_false in Hm. rewrite !app_nil_r.
+    unfold all_jobs in *.
+    destruct p; injection Hstep as Hstep; subst s'; proj.
+    + split; [rewrite rev_unit, Ja; reflexivity|]. split; [constructor; assumption|]. split; [|exact Jt].
+      rewrite <- app_assoc. cbn [app]. apply Permutation_cons_app. exact Jp.
+    + split; [rewrite rev_unit, Ja; reflexivity|]. split; [constructor; assumption|]. split; [|exact Jt].
+      rewrite map_app. cbn [map fst].
+      replace (st_hi s ++ (map fst (st_ready s) ++ [j]) ++ map snd (st_running s) ++ st_finished s)
+        with ((st_hi s ++ map fst (st_ready s)) ++ j :: map snd (st_running s) ++ st_finished s)
+        by (repeat rewrite <- app_assoc; reflexivity).
+      apply Permutation_cons_app. rewrite <- app_assoc. exact Jp.
+  - (* Take *)
+    destruct (lane_ok s l && negb (lane_busy s l)); [|discriminate].
+    destruct (take_choice s j) as [[hi' rd']|] eqn:Htc; [|discriminate].
+    injection Hstep as Hstep. subst s'. proj. rewrite !app_nil_r.
+    split; [exact Ja|]. split; [exact Jnd|]. split.
+    + eapply Permutation_trans; [exact Jp|]. unfold all_jobs. proj. cbn [map snd app].
+      destruct (take_choice_cases _ _ _ _ Htc) as [[Hhi Hrd]|[Hhi [Hhi' [o [Hf [Hrd _]]]]]].
+      * subst rd'. rewrite Hhi. cbn [app].
+        replace (hi' ++ map fst (st_ready s) ++ j :: map snd (st_running s) ++ st_finished s)
+          with ((hi' ++ map fst (st_ready s)) ++ j :: map snd (st_running s) ++ st_finished s)
+          by (rewrite <- app_assoc; reflexivity).
+        rewrite app_assoc. apply Permutation_middle.
+      * subst hi' rd'. rewrite Hhi. cbn [app]. apply perm_move. apply (find_job_perm _ _ _ Hf).
+    + cbn [map snd app]. eapply Permutation_trans; [apply Permutation_sym; apply Permutation_cons_append|].
+      apply perm_skip. exact Jt.
+  - (* Finish *)
+    destruct (find_lane l (st_running s)) as [j|] eqn:Hf; [|discriminate].
+    injection Hstep as Hstep. subst s'. proj. rewrite !app_nil_r.
+    destruct (find_lane_Some _ _ _ Hf) as [P1 _].
+    pose proof (perm_move (st_finished s) _ _ _ P1) as PM.
+    split; [exact Ja|]. split; [exact Jnd|]. split.
+    + eapply Permutation_trans; [exact Jp|]. unfold all_jobs. proj.
+      apply Permutation_app_head. apply Permutation_app_head. exact PM.
+    + eapply Permutation_trans; [exact Jt|]. exact PM.
+  - (* Spawn *)
+    destruct (lane_busy s l && negb (st_cancelled s)); [|discriminate].
+    injection Hstep as Hstep. subst s'. rewrite !app_nil_r. repeat split; assumption.
+  - injection Hstep as Hstep. subst s'. rewrite !app_nil_r. unfold all_jobs in *. proj. repeat split; assumption.
+  - destruct (st_shutdown s); [discriminate|].
+    injection Hstep as Hstep. subst s'. rewrite !app_nil_r. unfold all_jobs in *. proj. repeat split; assumption.
+  - destruct (st_shutdown s && queue_empty s && lane_ok s l && negb (lane_busy s l)); [|discriminate].
+    injection Hstep as Hstep. subst s'. rewrite !app_nil_r. unfold all_jobs in *. proj. repeat split; assumption.
+Qed.
+
+Lemma reach_jinv n alg ls : forall s, reach n alg ls s -> jinv ls s.
+Proof.
+  induction ls as [|a ls IH] using rev_ind; intros s Hr.
+  - apply reach_nil in Hr. subst. apply jinv_init.
+  - apply reach_snoc in Hr. destruct Hr as [s1 [Hr Hs]]. eapply jinv_step; [apply IH; exact Hr|exact Hs].
+Qed.
+
+(* consequences used below *)
+Lemma jinv_nodup_all ls s : jinv ls s -> NoDup (all_jobs s).
+Proof. intros [_ [Jnd [Jp _]]]. exact (Permutation_NoDup Jp Jnd). Qed.
+
+Lemma nodup_app_disjoint (a b : list N) x : NoDup (a ++ b) -> In x a -> In x b -> False.
+Proof.
+  induction a as [|y a IH]; intros Hnd Ha Hb; [destruct Ha|].
+  cbn [app] in Hnd. inversion Hnd as [|z zs Hnotin Hnd']; subst.
+  destruct Ha as [Heq|Ha].
+  - subst y. apply Hnotin. apply in_or_app. right. exact Hb.
+  - exact (IH Hnd' Ha Hb).
+Qed.
+
+Lemma nodup_app_l (a b : list N) : NoDup (a ++ b) -> NoDup a.
+Proof.
+  induction a as [|y a IH]; intros Hnd; [constructor|].
+  cbn [app] in Hnd. inversion Hnd as [|z zs Hnotin Hnd']; subst.
+  constructor; [|exact (IH Hnd')]. intros H. apply Hnotin. apply in_or_app. left. exact H.
+Qed.
+
+Lemma nodup_app_r (a b : list N) : NoDup (a ++ b) -> NoDup b.
+Proof.
+  induction a as [|y a IH]; intros Hnd; [exact Hnd|].
+  cbn [app] in Hnd. inversion Hnd; subst. apply IH. assumption.
+Qed.
+
+(* a taken job is neither in the high-priority list nor in the ready list *)
+Lemma jinv_taken_not_queued ls s x :
+  jinv ls s -> In x (takes ls) -> ~ In x (st_hi s) /\ ~ In x (map fst (st_ready s)).
+Proof.
+  intros J Hx. pose proof (jinv_nodup_all _ _ J) as Hnd. destruct J as [_ [_ [_ Jt]]].
+  apply (Permutation_in _ Jt) in Hx. unfold all_jobs in Hnd. split; intros Hq.
+  - apply (nodup_app_disjoint _ _ x Hnd Hq). apply in_or_app. right. exact Hx.
+  - apply nodup_app_r in Hnd. apply (nodup_app_disjoint _ _ x Hnd Hq). exact Hx.
+Qed.
+
+Lemma jinv_taken_added ls s x : jinv ls s -> In x (takes ls) -> In x (st_added s).
+Proof.
+  intros [_ [_ [Jp Jt]]] Hx. apply (Permutation_in _ Jt) in Hx.
+  apply (Permutation_in _ (Permutation_sym Jp)). unfold all_jobs.
+  apply in_or_app. right. apply in_or_app. right. exact Hx.
+Qed.
+
+Lemma jinv_hi_ready_disjoint ls s x : jinv ls s -> In x (st_hi s) -> In x (map fst (st_ready s)) -> False.
+Proof.
+  intros J H1 H2. pose proof (jinv_nodup_all _ _ J) as Hnd. unfold all_jobs in Hnd.
+  apply (nodup_app_disjoint _ _ x Hnd H1). apply in_or_app. left. exact H2.
+Qed.
+
+Lemma jinv_ready_nodup ls s : jinv ls s -> NoDup (map fst (st_ready s)).
+Proof.
+  intros J. pose proof (jinv_nodup_all _ _ J) as Hnd. unfold all_jobs in Hnd.
+  apply nodup_app_r in Hnd. apply nodup_app_l in Hnd. exact Hnd.
+Qed.
+
+(* ------------------------------------------------------------------ exactly once *)
+Theorem takes_nodup n alg ls s : reach n alg ls s -> NoDup (takes ls).
+Proof.
+  intros Hr. pose proof (reach_jinv _ _ _ _ Hr) as J. pose proof (jinv_nodup_all _ _ J) as Hnd.
+  destruct J as [_ [_ [_ Jt]]]. apply (Permutation_NoDup (Permutation_sym Jt)).
+  unfold all_jobs in Hnd. apply nodup_app_r in Hnd. apply nodup_app_r in Hnd. exact Hnd.
+Qed.
+
+Theorem adds_nodup n alg ls s : reach n alg ls s -> NoDup (adds ls).
+Proof.
+  intros Hr. destruct (reach_jinv _ _ _ _ Hr) as [Ja [Jnd _]].
+  rewrite Ja in Jnd. apply NoDup_rev in Jnd. rewrite rev_involutive in Jnd. exact Jnd.
+Qed.
+
+Lemma step_take_queued s l j s' : step s (Take l j) = Some s' -> In j (st_hi s) \/ In j (map fst (st_ready s)).
+Proof.
+  cbn [step]. destruct (lane_ok s l && negb (lane_busy s l)); [|discriminate].
+  destruct (take_choice s j) as [[hi' rd']|] eqn:Htc; [|discriminate]. intros _.
+  destruct (take_choice_cases _ _ _ _ Htc) as [[Hhi _]|[_ [_ [o [Hf _]]]]].
+  - left. rewrite Hhi. left. reflexivity.
+  - right. apply find_job_In in Hf. apply (in_map fst) in Hf. exact Hf.
+Qed.
+
+(* a job is taken only after it was added, and never a second time *)
+Theorem take_after_add n alg pre l j post s :
+  reach n alg (pre ++ Take l j :: post) s -> In j (adds pre) /\ ~ In j (takes pre).
+Proof.
+  intros Hr. destruct (accepts_prefix _ _ _ _ Hr) as [s1 [H1 H2]].
+  cbn [accepts] in H2. destruct (step s1 (Take l j)) as [s2|] eqn:Hs; [|discriminate].
+  pose proof (reach_jinv _ _ _ _ H1) as J. pose proof (step_take_queued _ _ _ _ Hs) as Hq.
+  split.
+  - destruct J as [Ja [_ [Jp _]]].
+    assert (Hin : In j (st_added s1)).
+    { apply (Permutation_in _ (Permutation_sym Jp)). unfold all_jobs.
+      destruct Hq as [Hq|Hq]; [apply in_or_app; left; exact Hq|apply in_or_app; right; apply in_or_app; left; exact Hq]. }
+    rewrite Ja in Hin. apply in_rev in Hin. exact Hin.
+  - intros Ht. destruct (jinv_taken_not_queued _ _ _ J Ht) as [N1 N2]. destruct Hq; contradiction.
+Qed.
+
+(* in a terminal state every added job has finished, exactly once *)
+Theorem exactly_once n alg ls s :
+  reach n alg ls s -> terminal s = true ->
+  Permutation (st_finished s) (adds ls) /\ NoDup (st_finished s) /\ Permutation (takes ls) (adds ls).
+Proof.
+  intros Hr Ht. destruct (reach_jinv _ _ _ _ Hr) as [Ja [Jnd [Jp Jt]]].
+  unfold terminal in Ht. repeat rewrite andb_true_iff in Ht. destruct Ht as [[_ Hq] Hrun].
+  unfold queue_empty in Hq. unfold all_jobs in Jp.
+  destruct (st_hi s); [|discriminate]. destruct (st_ready s); [|discriminate]. destruct (st_running s); [|discriminate].
+  cbn [map app] in Jp, Jt.
+  assert (P : Permutation (st_finished s) (adds ls)).
+  { eapply Permutation_trans; [apply Permutation_sym; exact Jp|]. rewrite Ja. apply Permutation_sym. apply Permutation_rev. }
+  split; [exact P|]. split.
+  - apply (Permutation_NoDup Jp). exact Jnd.
+  - eapply Permutation_trans; [exact Jt|exact P].
+Qed.
+
+(* the jobs that finished so far were all added, whatever the state *)
+Theorem finished_subset n alg ls s : reach n alg ls s -> NoDup (st_finished s) /\ incl (st_finished s) (adds ls).
+Proof.
+  intros Hr. pose proof (reach_jinv _ _ _ _ Hr) as J. pose proof (jinv_nodup_all _ _ J) as Hnd.
+  destruct J as [Ja [_ [Jp _]]]. unfold all_jobs in *. split.
+  - apply nodup_app_r in Hnd. apply nodup_app_r in Hnd. apply nodup_app_r in Hnd. exact Hnd.
+  - intros x Hx. apply in_rev. rewrite <- Ja. apply (Permutation_in _ (Permutation_sym Jp)).
+    apply in_or_app. right. apply in_or_app. right. apply in_or_app. right. exact Hx.
+Qed.
+
+(* ------------------------------------------------------------------ invariant 3: order *)
+Definition oinv (ls : list label) (s : state) : Prop :=
+  hi_adds ls = filter (fun j => mem_n j (hi_adds ls)) (takes ls) ++ st_hi s /\
+  (forall e, In e (st_ready s) <-> In e (normal_entries ls) /\ ~ In (fst e) (takes ls)) /\
+  (st_alg s = Fifo ->
+   normal_adds ls = filter (fun j => mem_n j (normal_adds ls)) (takes ls) ++ map fst (st_ready s)).
+
+Lemma filter_mem_ext (T H : list N) j :
+  ~ In j T -> filter (fun x => mem_n x (H ++ [j])) T = filter (fun x => mem_n x H) T.
+Proof.
+  intros Hn. apply filter_ext_in. intros x Hx. rewrite mem_n_app.
+  assert (E : mem_n x [j] = false).
+  { apply mem_n_false. intros [Heq|[]]. subst. contradiction. }
+  rewrite E. apply orb_false_r.
+Qed.
+
+Lemma filter_snoc (f : N -> bool) T j : filter f (T ++ [j]) = filter f T ++ (if f j then [j] else []).
+Proof. rewrite filter_app. cbn [filter]. reflexivity. Qed.
+
+Lemma in_filter_in (f : N -> bool) T x : In x (filter f T) -> In x T.
+Proof. intros H. apply filter_In in H. destruct H as [H _]. exact H. Qed.
+
+Lemma step_alg s a s' : step s a = Some s' -> st_alg s' = st_alg s /\ st_lanes s' = st_lanes s.
+Proof.
+  destruct a as [j p o src|l j|l|l| | |l]; cbn [step]; intros H.
+  - destruct (mem_n j (st_added s)); [discriminate|]. destruct (src_ok s src); [|discriminate].
+    destruct p; injection H as H; subst s'; split; reflexivity.
+  - destruct (lane_ok s l && negb (lane_busy s l)); [|discriminate].
+    destruct (take_choice s j) as [[hi' rd']|]; [|discriminate]. injection H as H; subst s'; split; reflexivity.
+  - destruct (find_lane l (st_running s)); [|discriminate]. injection H as H; subst s'; split; reflexivity.
+  - destruct (lane_busy s l && negb (st_cancelled s)); [|discriminate]. injection H as H; subst s'; split; reflexivity.
+  - injection H as H; subst s'; split; reflexivity.
+  - destruct (st_shutdown s); [discriminate|]. injection H as H; subst s'; split; reflexivity.
+  - destruct (st_shutdown s && queue_empty s && lane_ok s l && negb (lane_busy s l)); [|discriminate].
+    injection H as H; subst s'; split; reflexivity.
+Qed.
+
+Lemma oinv_init n alg : oinv [] (init n alg).
+Proof.
+  unfold oinv, init. proj. cbn. split; [reflexivity|]. split; [|reflexivity].
+  intros e. split; [intros []|intros [[] _]].
+Qed.
+
+Lemma oinv_step ls s a s' : jinv ls s -> oinv ls s -> step s a = Some s' -> oinv (ls ++ [a]) s'.
+Proof.
+  intros J [O1 [O2 O3]] Hstep. unfold oinv.
+  destruct (step_alg _ _ _ Hstep) as [Halg _]. rewrite Halg.
+  rewrite hi_adds_app, takes_app, normal_entries_app, normal_adds_app.
+  destruct a as [j p o src|l j|l|l| | |l]; cbn [step] in Hstep; unfold normal_adds; cbn [hi_adds takes normal_entries map].
+  - (* Add *)
+    destruct (mem_n j (st_added s)) eqn:Hm; [discriminate|].
+    destruct (src_ok s src); [|discriminate].
+    apply mem_n_false in Hm.
+    assert (HjT : ~ In j (takes ls)) by (intros H; apply Hm; exact (jinv_taken_added _ _ _ J H)).
+    destruct p; injection Hstep as Hstep; subst s'; proj; rewrite !app_nil_r.
+    + cbn [hi_adds]. split; [|split; [exact O2|exact O3]].
+      rewrite filter_mem_ext by exact HjT. rewrite app_assoc. f_equal. exact O1.
+    + cbn [normal_entries map fst]. split; [exact O1|]. split.
+      * intros e. rewrite !in_app_iff. split.
+        -- intros [Hin|[Heq|[]]].
+           ++ apply O2 in Hin. destruct Hin as [A B]. split; [left; exact A|exact B].
+           ++ subst e. split; [right; left; reflexivity|exact HjT].
+        -- intros [[Hin|[Heq|[]]] Hnt].
+           ++ left. apply O2. split; assumption.
+           ++ right. left. exact Heq.
+      * intros Hf. fold (normal_adds ls). rewrite filter_mem_ext by exact HjT.
+        rewrite map_app. cbn [map fst]. rewrite app_assoc. f_equal. exact (O3 Hf).
+  - (* Take *)
+    destruct (lane_ok s l && negb (lane_busy s l)); [|discriminate].
+    destruct (take_choice s j) as [[hi' rd']|] eqn:Htc; [|discriminate].
+    injection Hstep as Hstep. subst s'. proj. rewrite !app_nil_r. fold (normal_adds ls).
+    rewrite !filter_snoc.
+    destruct (take_choice_cases _ _ _ _ Htc) as [[Hhi Hrd]|[Hhi [Hhi' [o [Hf [Hrd [Hfifo Hprio]]]]]]].
+    + (* from the high-priority list *)
+      subst rd'.
+      assert (HjH : In j (hi_adds ls)).
+      { rewrite O1. apply in_or_app. right. rewrite Hhi. left. reflexivity. }
+      assert (Hjhi : In j (st_hi s)) by (rewrite Hhi; left; reflexivity).
+      apply mem_n_In in HjH. rewrite HjH.
+      split; [|split].
+      * rewrite <- app_assoc. cbn [app]. etransitivity; [exact O1|]. rewrite Hhi. reflexivity.
+      * intros e. split.
+        -- intros Hin. pose proof Hin as Hin'. apply O2 in Hin'. destruct Hin' as [A B]. split; [exact A|].
+           rewrite in_app_iff. intros [H|[H|[]]]; [exact (B H)|].
+           apply (jinv_hi_ready_disjoint _ _ j J Hjhi). rewrite H. apply in_map. exact Hin.
+        -- intros [A B]. apply O2. split; [exact A|]. intros H. apply B. apply in_or_app. left. exact H.
+      * intros Hf. specialize (O3 Hf).
+        assert (HjN : mem_n j (normal_adds ls) = false).
+        { apply mem_n_false. intros H. rewrite O3 in H. apply in_app_or in H. destruct H as [H|H].
+          - apply in_filter_in in H. destruct (jinv_taken_not_queued _ _ _ J H) as [N1 _]. exact (N1 Hjhi).
+          - exact (jinv_hi_ready_disjoint _ _ j J Hjhi H). }
+        rewrite HjN. rewrite app_nil_r. exact O3.
+    + (* from the ready queue *)
+      subst hi' rd'.
+      assert (Hjr : In j (map fst (st_ready s))) by (apply find_job_In in Hf; apply (in_map fst) in Hf; exact Hf).
+      assert (HjH : mem_n j (hi_adds ls) = false).
+      { apply mem_n_false. intros H. rewrite O1, Hhi, app_nil_r in H. apply in_filter_in in H.
+        destruct (jinv_taken_not_queued _ _ _ J H) as [_ N2]. exact (N2 Hjr). }
+      rewrite HjH. split; [|split].
+      * rewrite !app_nil_r. rewrite O1 at 1. rewrite Hhi, app_nil_r. reflexivity.
+      * intros e. rewrite (remove_job_In _ _ _ e (jinv_ready_nodup _ _ J) Hf). rewrite O2. rewrite in_app_iff. split.
+        -- intros [[A B] C]. split; [exact A|]. intros [H|[H|[]]]; [exact (B H)|]. apply C. symmetry. exact H.
+        -- intros [A B]. split; [split; [exact A|]|].
+           ++ intros H. apply B. left. exact H.
+           ++ intros H. apply B. right. left. symmetry. exact H.
+      * intros Hfi. specialize (O3 Hfi). specialize (Hfifo Hfi).
+        assert (HjN : mem_n j (normal_adds ls) = true).
+        { apply mem_n_In. rewrite O3. apply in_or_app. right. exact Hjr. }
+        rewrite HjN. rewrite <- app_assoc. cbn [app]. etransitivity; [exact O3|]. f_equal.
+        set (r := remove_job j (st_ready s)) in *. rewrite Hfifo. reflexivity.
+  - (* Finish *)
+    destruct (find_lane l (st_running s)) as [j|]; [|discriminate].
+    injection Hstep as Hstep. subst s'. proj. rewrite !app_nil_r. split; [exact O1|]. split; [exact O2|exact O3].
+  - destruct (lane_busy s l && negb (st_cancelled s)); [|discriminate].
+    injection Hstep as Hstep. subst s'. rewrite !app_nil_r. split; [exact O1|]. split; [exact O2|exact O3].
+  - injection Hstep as Hstep. subst s'. proj. rewrite !app_nil_r. split; [exact O1|]. split; [exact O2|exact O3].
+  - destruct (st_shutdown s); [discriminate|].
+    injection Hstep as Hstep. subst s'. proj. rewrite !app_nil_r. split; [exact O1|]. split; [exact O2|exact O3].
+  - destruct (st_shutdown s && queue_empty s && lane_ok s l && negb (lane_busy s l)); [|discriminate].
+    injection Hstep as Hstep. subst s'. proj. rewrite !app_nil_r. split; [exact O1|]. split; [exact O2|exact O3].
+Qed.
+
+Lemma reach_oinv n alg ls : forall s, reach n alg ls s -> oinv ls s.
+Proof.
+  induction ls as [|a ls IH] using rev_ind; intros s Hr.
+  - apply reach_nil in Hr. subst. apply oinv_init.
+  - apply reach_snoc in Hr. destruct Hr as [s1 [Hr Hs]].
+    eapply oinv_step; [eapply reach_jinv; exact Hr|apply IH; exact Hr|exact Hs].
+Qed.
+
+(* ------------------------------------------------------------------ scheduling order *)
+(* The high-priority list is FIFO under both schedulers: the high-priority jobs taken so far followed by the ones
+   still waiting are the high-priority jobs in the order they were added. *)
+Theorem hi_order n alg ls s :
+  reach n alg ls s ->
+  hi_adds ls = filter (fun j => mem_n j (hi_adds ls)) (takes ls) ++ st_hi s.
+Proof. intros Hr. destruct (reach_oinv _ _ _ _ Hr) as [O1 _]. exact O1. Qed.
+
+Theorem fifo_order n ls s :
+  reach n Fifo ls s ->
+  normal_adds ls = filter (fun j => mem_n j (normal_adds ls)) (takes ls) ++ map fst (st_ready s).
+Proof.
+  intros Hr. destruct (reach_oinv _ _ _ _ Hr) as [_ [_ O3]]. apply O3.
+  destruct (reach_wf _ _ _ _ Hr) as [_ [Wa _]]. exact Wa.
+Qed.
+
+(* what is in the ready queue: the normal-priority jobs added and not yet taken, with their names *)
+Theorem ready_spec n alg ls s e :
+  reach n alg ls s ->
+  (In e (st_ready s) <-> In e (normal_entries ls) /\ ~ In (fst e) (takes ls)).
+Proof. intros Hr. destruct (reach_oinv _ _ _ _ Hr) as [_ [O2 _]]. apply O2. Qed.
+
+Lemma nodup_split_unique (b : N) : forall (p1 q1 p2 q2 : list N),
+  NoDup (p1 ++ b :: q1) -> p1 ++ b :: q1 = p2 ++ b :: q2 -> p1 = p2.
+Proof.
+  induction p1 as [|x p1 IH]; intros q1 p2 q2 Hnd Heq.
+  - destruct p2 as [|y p2]; [reflexivity|]. cbn [app] in *. injection Heq as H1 H2. subst y.
+    inversion Hnd as [|z zs Hnotin _]; subst z zs. exfalso. apply Hnotin. rewrite H2. apply in_or_app. right. left. reflexivity.
+  - destruct p2 as [|y p2]; cbn [app] in *.
+    + injection Heq as H1 H2. subst x. inversion Hnd as [|z zs Hnotin _]; subst z zs. exfalso. apply Hnotin.
+      apply in_or_app. right. left. reflexivity.
+    + injection Heq as H1 H2. subst y. inversion Hnd as [|z zs _ Hnd']; subst z zs. f_equal. eapply IH; eassumption.
+Qed.
+
+
+Lemma normal_adds_incl ls : incl (normal_adds ls) (adds ls).
+Proof.
+  unfold normal_adds. induction ls as [|a ls IH]; [intros x []|].
+  destruct a as [j p o src| | | | | |]; try destruct p; cbn [normal_entries adds map fst]; try exact IH.
+  - intros x Hx. right. apply IH. exact Hx.
+  - intros x [Hx|Hx]; [left; exact Hx|right; apply IH; exact Hx].
+Qed.
+
+Lemma normal_adds_nodup ls : NoDup (adds ls) -> NoDup (normal_adds ls).
+Proof.
+  pose proof normal_adds_incl as Hincl. unfold normal_adds in *.
+  induction ls as [|a ls IH]; [intros _; constructor|].
+  destruct a as [j p o src| | | | | |]; try destruct p; cbn [normal_entries adds map fst]; try exact IH.
+  - intros H. inversion H; subst. apply IH. assumption.
+  - intros H. inversion H as [|z zs Hnotin Hnd']; subst z zs. constructor; [|apply IH; exact Hnd'].
+    intros Hin. apply Hnotin. apply (Hincl ls). exact Hin.
+Qed.
+
+(* FIFO, pairwise: when a normal-priority job b is taken, every normal-priority job added before b has been taken *)
+Theorem fifo_pairwise n pre l b post s x a y z :
+  reach n Fifo (pre ++ Take l b :: post) s ->
+  normal_adds pre = x ++ a :: y ++ b :: z ->
+  In a (takes pre).
+Proof.
+  intros Hr Hsplit. destruct (accepts_prefix _ _ _ _ Hr) as [s1 [H1 H2]].
+  cbn [accepts] in H2. destruct (step s1 (Take l b)) as [s2|] eqn:Hs; [|discriminate].
+  pose proof (reach_jinv _ _ _ _ H1) as J. pose proof (fifo_order _ _ _ H1) as F.
+  destruct (reach_wf _ _ _ _ H1) as [_ [Wa _]].
+  destruct (take_after_add _ _ _ _ _ _ _ Hr) as [_ Hnt].
+  assert (Hb : In b (normal_adds pre)).
+  { rewrite Hsplit. apply in_or_app. right. right. apply in_or_app. right. left. reflexivity. }
+  cbn [step] in Hs. destruct (lane_ok s1 l && negb (lane_busy s1 l)); [|discriminate].
+  destruct (take_choice s1 b) as [[hi' rd']|] eqn:Htc; [|discriminate].
+  assert (Hbr : In b (map fst (st_ready s1))).
+  { rewrite F in Hb. apply in_app_or in Hb. destruct Hb as [Hb|Hb]; [|exact Hb].
+    apply in_filter_in in Hb. contradiction. }
+  destruct (take_choice_cases _ _ _ _ Htc) as [[Hhi _]|[_ [_ [o [_ [_ [Hfifo _]]]]]]].
+  - exfalso. apply (jinv_hi_ready_disjoint _ _ b J); [rewrite Hhi; left; reflexivity|exact Hbr].
+  - specialize (Hfifo Wa).
+    assert (F' : normal_adds pre = filter (fun j => mem_n j (normal_adds pre)) (takes pre) ++ b :: map fst rd').
+    { etransitivity; [exact F|]. f_equal. rewrite Hfifo. reflexivity. }
+    assert (Hnd : NoDup (normal_adds pre)) by (apply normal_adds_nodup; exact (adds_nodup _ _ _ _ H1)).
+    assert (Hsplit' : normal_adds pre = (x ++ a :: y) ++ b :: z).
+    { rewrite Hsplit. rewrite <- app_assoc. reflexivity. }
+    assert (E : filter (fun j => mem_n j (normal_adds pre)) (takes pre) = x ++ a :: y).
+    { eapply nodup_split_unique; [rewrite <- F'; exact Hnd|]. rewrite <- F'. exact Hsplit'. }
+    apply (in_filter_in (fun j => mem_n j (normal_adds pre))). rewrite E. apply in_or_app. right. left. reflexivity.
+Qed.
+
+(* a normal-priority job is only taken when no high-priority job is waiting *)
+Theorem high_first n alg pre l j post s :
+  reach n alg (pre ++ Take l j :: post) s -> In j (normal_adds pre) ->
+  forall h, In h (hi_adds pre) -> In h (takes pre).
+Proof.
+  intros Hr Hj h Hh. destruct (accepts_prefix _ _ _ _ Hr) as [s1 [H1 H2]].
+  cbn [accepts] in H2. destruct (step s1 (Take l j)) as [s2|] eqn:Hs; [|discriminate].
+  pose proof (reach_jinv _ _ _ _ H1) as J. destruct (reach_oinv _ _ _ _ H1) as [O1 [O2 _]].
+  destruct (take_after_add _ _ _ _ _ _ _ Hr) as [_ Hnt].
+  unfold normal_adds in Hj. apply in_map_iff in Hj. destruct Hj as [[j' o] [Hfst He]]. cbn [fst] in Hfst. subst j'.
+  assert (Hjr : In j (map fst (st_ready s1))).
+  { apply (in_map fst (st_ready s1) (j, o)). apply O2. split; [exact He|exact Hnt]. }
+  cbn [step] in Hs. destruct (lane_ok s1 l && negb (lane_busy s1 l)); [|discriminate].
+  destruct (take_choice s1 j) as [[hi' rd']|] eqn:Htc; [|discriminate].
+  destruct (take_choice_cases _ _ _ _ Htc) as [[Hhi _]|[Hhi _]].
+  - exfalso. apply (jinv_hi_ready_disjoint _ _ j J); [rewrite Hhi; left; reflexivity|exact Hjr].
+  - rewrite O1, Hhi, app_nil_r in Hh. apply in_filter_in in Hh. exact Hh.
+Qed.
+
+(* name-priority scheduler: once no high-priority job is waiting, the job taken has a greatest ordinal name among
+   the normal-priority jobs added and not yet taken *)
+Theorem priority_order n pre l j post s :
+  reach n NamePrio (pre ++ Take l j :: post) s ->
+  (forall h, In h (hi_adds pre) -> In h (takes pre)) ->
+  exists o, In (j, o) (normal_entries pre) /\
+            forall k ok, In (k, ok) (normal_entries pre) -> ~ In k (takes pre) -> bytes_ltb o ok = false.
+Proof.
+  intros Hr Hall. destruct (accepts_prefix _ _ _ _ Hr) as [s1 [H1 H2]].
+  cbn [accepts] in H2. destruct (step s1 (Take l j)) as [s2|] eqn:Hs; [|discriminate].
+  pose proof (reach_jinv _ _ _ _ H1) as J. destruct (reach_oinv _ _ _ _ H1) as [O1 [O2 _]].
+  destruct (reach_wf _ _ _ _ H1) as [_ [Wa _]].
+  cbn [step] in Hs. destruct (lane_ok s1 l && negb (lane_busy s1 l)); [|discriminate].
+  destruct (take_choice s1 j) as [[hi' rd']|] eqn:Htc; [|discriminate].
+  destruct (take_choice_cases _ _ _ _ Htc) as [[Hhi _]|[_ [_ [o [Hf [_ [_ Hprio]]]]]]].
+  - exfalso.
+    assert (HjH : In j (hi_adds pre)) by (rewrite O1; apply in_or_app; right; rewrite Hhi; left; reflexivity).
+    destruct (jinv_taken_not_queued _ _ _ J (Hall j HjH)) as [N1 _]. apply N1. rewrite Hhi. left. reflexivity.
+  - exists o. split.
+    + apply find_job_In in Hf. apply O2 in Hf. destruct Hf as [A _]. exact A.
+    + intros k ok Hk Hnt. specialize (Hprio Wa). rewrite is_max_spec in Hprio.
+      apply (Hprio (k, ok)). apply O2. split; [exact Hk|exact Hnt].
+Qed.
+
+(* ------------------------------------------------------------------ progress *)
+Lemma find_job_nodup j o r : NoDup (map fst r) -> In (j, o) r -> find_job j r = Some o.
+Proof.
+  induction r as [|[k ok] r IH]; [intros _ []|]. cbn [map fst find_job snd].
+  intros Hnd Hin. inversion Hnd as [|z zs Hnotin Hnd']; subst z zs.
+  destruct Hin as [Heq|Hin].
+  - injection Heq as H1 H2. subst. rewrite N.eqb_refl. reflexivity.
+  - destruct (k =? j) eqn:E.
+    + apply N.eqb_eq in E. subst k. exfalso. apply Hnotin. apply (in_map fst) in Hin. exact Hin.
+    + apply IH; assumption.
+Qed.
+
+(* an idle live lane can always take when something is queued: no job is stuck behind the scheduler *)
+Theorem no_take_lost n alg ls s l :
+  reach n alg ls s -> lane_ok s l = true -> lane_busy s l = false -> queue_empty s = false ->
+  exists j s', step s (Take l j) = Some s'.
+Proof.
+  intros Hr Hok Hidle Hq. pose proof (reach_jinv _ _ _ _ Hr) as J.
+  assert (Htc : exists j c, take_choice s j = Some c).
+  { unfold take_choice. unfold queue_empty in Hq. destruct (st_hi s) as [|h hs].
+    - destruct (st_ready s) as [|e r] eqn:Hr'; [discriminate|].
+      destruct (st_alg s).
+      + exists (fst e). rewrite N.eqb_refl. eexists. reflexivity.
+      + destruct (exists_max (e :: r)) as [m [Hin Hmax]]; [discriminate|].
+        exists (fst m). destruct m as [mj mo]. cbn [fst snd] in *.
+        assert (Hf : find_job mj (e :: r) = Some mo).
+        { apply find_job_nodup; [|exact Hin]. rewrite <- Hr'. exact (jinv_ready_nodup _ _ J). }
+        rewrite Hf, Hmax. eexists. reflexivity.
+    - exists h. rewrite N.eqb_refl. eexists. reflexivity. }
+  destruct Htc as [j [[hi' rd'] Htc]]. exists j. cbn [step]. rewrite Hok, Hidle, Htc. cbn [negb andb]. eexists. reflexivity.
+Qed.
+
+(* while anything is queued some lane is alive; it can finish its job or take one *)
+Theorem no_stuck n alg ls s :
+  reach n alg ls s -> 0 < n -> queue_empty s = false ->
+  exists l, lane_ok s l = true /\
+            ((lane_busy s l = true /\ exists s', step s (Finish l) = Some s') \/
+             (lane_busy s l = false /\ exists j s', step s (Take l j) = Some s')).
+Proof.
+  intros Hr Hpos Hq. destruct (reach_wf _ _ _ _ Hr) as [_ [_ [_ [_ [_ Wq]]]]].
+  destruct (Wq Hpos Hq) as [l Hl]. exists l. split; [exact Hl|].
+  destruct (lane_busy s l) eqn:Hb.
+  - left. split; [reflexivity|]. destruct (find_lane_busy _ _ Hb) as [j Hf]. cbn [step]. rewrite Hf. eexists. reflexivity.
+  - right. split; [reflexivity|]. eapply no_take_lost; eassumption.
+Qed.
+
+(* ------------------------------------------------------------------ no process is started after cancellation *)
+Lemma cancelled_no_spawn post : forall s s',
+  st_cancelled s = true -> accepts s post = Some s' -> forallb (fun a => negb (is_spawn a)) post = true.
+Proof.
+  induction post as [|a post IH]; intros s s' Hc Ha; [reflexivity|].
+  cbn [accepts] in Ha. destruct (step s a) as [s1|] eqn:Hs; [|discriminate].
+  cbn [forallb]. apply andb_true_iff.
+  assert (Hc1 : st_cancelled s1 = true /\ is_spawn a = false).
+  { destruct a as [j p o src|l j|l|l| | |l]; cbn [step] in Hs; cbn [is_spawn].
+    - destruct (mem_n j (st_added s)); [discriminate|]. destruct (src_ok s src); [|discriminate].
+      destruct p; injection Hs as Hs; subst s1; split; [exact Hc|reflexivity|exact Hc|reflexivity].
+    - destruct (lane_ok s l && negb (lane_busy s l)); [|discriminate].
+      destruct (take_choice s j) as [[hi' rd']|]; [|discriminate]. injection Hs as Hs; subst s1; split; [exact Hc|reflexivity].
+    - destruct (find_lane l (st_running s)); [|discriminate]. injection Hs as Hs; subst s1; split; [exact Hc|reflexivity].
+    - rewrite Hc in Hs. rewrite andb_false_r in Hs. discriminate.
+    - injection Hs as Hs; subst s1; split; reflexivity.
+    - destruct (st_shutdown s); [discriminate|]. injection Hs as Hs; subst s1; split; [exact Hc|reflexivity].
+    - destruct (st_shutdown s && queue_empty s && lane_ok s l && negb (lane_busy s l)); [|discriminate].
+      injection Hs as Hs; subst s1; split; [exact Hc|reflexivity]. }
+  destruct Hc1 as [Hc1 Hns]. split; [rewrite Hns; reflexivity|]. eapply IH; eassumption.
+Qed.
+
+Theorem no_spawn_after_cancel n alg pre post s :
+  reach n alg (pre ++ Cancel :: post) s -> forallb (fun a => negb (is_spawn a)) post = true.
+Proof.
+  intros Hr. destruct (accepts_prefix _ _ _ _ Hr) as [s1 [_ H2]].
+  cbn [accepts step] in H2. eapply cancelled_no_spawn; [|exact H2]. reflexivity.
+Qed.
